@@ -135,7 +135,8 @@ def run(ctx):
                 # early exits must leave the function with Err (the `?` on the projection), never continue with a short vector
                 bad_early = []
                 for b, s2 in early:
-                    reach = ft.cfg.reachable_from(s2)
+                    from ..terms import reachable_threaded
+                    reach = reachable_threaded(ft, b, s2)
                     if any(c2.block in reach for c2 in ft.calls() if c2.callee and (c2.callee == NORM or c2.callee.endswith("Vec::push"))):
                         bad_early.append((b, s2))
                 if not (ev and uses_item and not bad_early) or lp.source is None:
